@@ -248,4 +248,199 @@ theorem C11_entry_walk_current_tree :
     have h' : Gen.preloadSingleNilCheck = false := by simpa using h
     refine ⟨h', ?_⟩; rw [h']; decide
 
+/-! ## `Relationship.ToQueryConditions` (Association().Find / Count): exactly the rows whose foreign key equals the
+     parent's REFERENCED key -/
+
+/-- the IN list is complete: the value tuple of every record with a not-all-zero key is in `results`, provided no other
+    record's key renders to the same key string (negation of finding F6) -/
+theorem C11_identity_values_complete (rows : List IdRow) (hf : AddrFun rows) (r : IdRow) (hr : r ∈ rows)
+    (hz : allZero r.key = false) (hinj : ∀ r' ∈ rows, r'.keyStr = r.keyStr → r'.vals = r.vals) :
+    r.vals ∈ (identitySlice rows).values := by
+  have hk := C11_identity_partial_zero_kept rows hf r hr hz
+  obtain ⟨hal, hvs⟩ := C11_identity_values rows
+  have hs := lookup_mem_groups _ _ _ hk
+  rw [← hal] at hs
+  obtain ⟨v, hv, hvk⟩ := List.mem_map.mp hs
+  obtain ⟨r', hr', hrv, _⟩ := hvs v hv
+  have : r'.vals = r.vals := hinj r' hr' (by unfold IdRow.keyStr; rw [hrv]; exact hvk)
+  rw [← this, hrv]; exact hv
+
+/-- the same record (address) always carries the same column values -/
+def PAddrFun (parents : List PRow) : Prop :=
+  ∀ p p', p ∈ parents → p' ∈ parents → p.addr = p'.addr → p.cols = p'.cols
+
+/-- NONE FOREIGN, every relation kind (direct, polymorphic constant, join-table hop), any number of reference columns,
+    all key values: a row accepted by the conditions of `ToQueryConditions` satisfies EVERY reference of the relation
+    — foreign key = referenced column of one of the given records (whose key is not entirely zero), constants equal,
+    join row linked to the target by the target's referenced column. -/
+theorem C11_query_conditions_none_foreign (ft : List Char) (jt : Option (List Char)) (refs : List JoinRef)
+    (parents : List PRow) (env : QEnv) (h : assocSelects ft jt refs parents env = true) :
+    ∃ p ∈ parents, allZero (p.idRow (toQueryConditions ft jt refs).valFields).key = false ∧
+      ∀ r ∈ refs, refHolds ft jt p env r = true := by
+  unfold assocSelects inHolds at h
+  simp only [Bool.and_eq_true, List.all_eq_true, Bool.not_eq_true', List.contains_iff_mem] at h
+  obtain ⟨hat, hnil, hin⟩ := h
+  obtain ⟨_, hvs⟩ := C11_identity_values (parents.map (·.idRow (toQueryConditions ft jt refs).valFields))
+  obtain ⟨r, hr, hrv, hz⟩ := hvs _ hin
+  obtain ⟨p, hp, hpr⟩ := List.mem_map.mp hr
+  subst hpr
+  refine ⟨p, hp, hz, ?_⟩
+  rw [refs_hold_iff]
+  refine ⟨?_, hat⟩
+  have hnil' : KeyVal.nil ∉ (toQueryConditions ft jt refs).pairs.map (fun pr => env (jt.getD ft) pr.1) := by
+    intro hm
+    have : ((toQueryConditions ft jt refs).inCols.map (env (toQueryConditions ft jt refs).inTable)).contains KeyVal.nil = true := by
+      simp only [List.contains_iff_mem, QConds.inCols, List.map_map]
+      exact hm
+    rw [this] at hnil; cases hnil
+  have heq : (toQueryConditions ft jt refs).pairs.map (fun pr => env (jt.getD ft) pr.1)
+      = (toQueryConditions ft jt refs).pairs.map (fun pr => (p.cols pr.2).val) := by
+    have := idRow_vals p (toQueryConditions ft jt refs).pairs
+    unfold QConds.valFields at hrv
+    rw [this] at hrv
+    rw [hrv]
+    simp [QConds.inCols, List.map_map, Function.comp_def, toQueryConditions]
+  exact (tuple_eq_iff_pairs (env (jt.getD ft)) p.cols _).mp ⟨hnil', heq⟩
+
+/-- NONE MISSING: a row that satisfies every reference for one of the given records (key not entirely zero) is accepted,
+    provided no other given record's key renders to the same key string (negation of finding F6). -/
+theorem C11_query_conditions_none_missing (ft : List Char) (jt : Option (List Char)) (refs : List JoinRef)
+    (parents : List PRow) (env : QEnv) (hf : PAddrFun parents) (p : PRow) (hp : p ∈ parents)
+    (hz : allZero (p.idRow (toQueryConditions ft jt refs).valFields).key = false)
+    (hinj : ∀ p' ∈ parents, (p'.idRow (toQueryConditions ft jt refs).valFields).keyStr
+              = (p.idRow (toQueryConditions ft jt refs).valFields).keyStr →
+            (p'.idRow (toQueryConditions ft jt refs).valFields).vals = (p.idRow (toQueryConditions ft jt refs).valFields).vals)
+    (hr : ∀ r ∈ refs, refHolds ft jt p env r = true) :
+    assocSelects ft jt refs parents env = true := by
+  rw [refs_hold_iff] at hr
+  obtain ⟨hpairs, hat⟩ := hr
+  obtain ⟨hnil, heq⟩ := (tuple_eq_iff_pairs (env (jt.getD ft)) p.cols _).mpr hpairs
+  have hin := C11_identity_values_complete (parents.map (·.idRow (toQueryConditions ft jt refs).valFields))
+    (by
+      intro r r' hr hr' ha
+      obtain ⟨q, hq, rfl⟩ := List.mem_map.mp hr
+      obtain ⟨q', hq', rfl⟩ := List.mem_map.mp hr'
+      have := hf q q' hq hq' ha
+      simp [PRow.idRow, this])
+    (p.idRow (toQueryConditions ft jt refs).valFields) (List.mem_map.mpr ⟨p, hp, rfl⟩) hz
+    (by
+      intro r' hr' hk
+      obtain ⟨q, hq, rfl⟩ := List.mem_map.mp hr'
+      exact hinj q hq hk)
+  unfold assocSelects inHolds
+  simp only [Bool.and_eq_true, List.all_eq_true, Bool.not_eq_true', List.contains_iff_mem]
+  have hrow : (toQueryConditions ft jt refs).inCols.map (env (toQueryConditions ft jt refs).inTable)
+      = (toQueryConditions ft jt refs).pairs.map (fun pr => env (jt.getD ft) pr.1) := by
+    simp [QConds.inCols, List.map_map, Function.comp_def, toQueryConditions]
+  refine ⟨hat, ?_, ?_⟩
+  · rw [hrow]
+    cases hc : ((toQueryConditions ft jt refs).pairs.map (fun pr => env (jt.getD ft) pr.1)).contains KeyVal.nil with
+    | false => rfl
+    | true => exact absurd (List.contains_iff_mem.mp hc) hnil
+  · rw [hrow]
+    have hv := idRow_vals p (toQueryConditions ft jt refs).pairs
+    unfold QConds.valFields at hin
+    rw [hv] at hin
+    have heq' : (toQueryConditions ft jt refs).pairs.map (fun pr => env (jt.getD ft) pr.1)
+        = (toQueryConditions ft jt refs).pairs.map (fun pr => (p.cols pr.2).val) := heq
+    rw [heq']; exact hin
+
+/-- the references of a relation written down as column pairs mean exactly the reference join over those pairs -/
+theorem C11_spec_refs (s : RelSpec) (ct : List Char) (p : PRow) (env : QEnv) (hw : ∀ cv ∈ s.consts, cv.2 ≠ []) :
+    (∀ r ∈ s.refs, refHolds ct s.via p env r = true) ↔ s.holds ct p env = true := by
+  unfold RelSpec.refs RelSpec.holds
+  cases hv : s.via with
+  | none =>
+    simp only [List.mem_append, List.mem_map, Bool.and_eq_true, List.all_eq_true]
+    constructor
+    · intro h
+      refine ⟨?_, ?_⟩
+      · intro pc hpc
+        cases hb : s.belongsTo with
+        | true => simpa [refHolds] using h ⟨false, pc.2, pc.1, []⟩ (Or.inl (by rw [hb]; simp only [Bool.false_eq_true, ↓reduceIte]; exact List.mem_map.mpr ⟨pc, hpc, rfl⟩))
+        | false => simpa [refHolds] using h ⟨true, pc.1, pc.2, []⟩ (Or.inl (by rw [hb]; simp only [Bool.false_eq_true, ↓reduceIte]; exact List.mem_map.mpr ⟨pc, hpc, rfl⟩))
+      · intro cv hcv
+        have := h ⟨false, [], cv.1, cv.2⟩ (Or.inr ⟨cv, hcv, rfl⟩)
+        simpa [refHolds, hw cv hcv] using this
+    · rintro ⟨h1, h2⟩ r hr
+      rcases hr with hr | ⟨cv, hcv, rfl⟩
+      · cases hb : s.belongsTo with
+        | true =>
+          rw [hb] at hr; simp only [if_true, List.mem_map] at hr
+          obtain ⟨pc, hpc, rfl⟩ := hr
+          simpa [refHolds] using h1 pc hpc
+        | false =>
+          rw [hb] at hr; simp only [Bool.false_eq_true, if_false, List.mem_map] at hr
+          obtain ⟨pc, hpc, rfl⟩ := hr
+          simpa [refHolds] using h1 pc hpc
+      · simpa [refHolds, hw cv hcv] using h2 cv hcv
+  | some j =>
+    simp only [List.mem_append, List.mem_map, Bool.and_eq_true, List.all_eq_true]
+    constructor
+    · intro h
+      refine ⟨?_, ?_⟩
+      · intro pj hpj
+        simpa [refHolds] using h ⟨true, pj.1, pj.2, []⟩ (Or.inl ⟨pj, hpj, rfl⟩)
+      · intro jc hjc
+        simpa [refHolds] using h ⟨false, jc.2, jc.1, []⟩ (Or.inr ⟨jc, hjc, rfl⟩)
+    · rintro ⟨h1, h2⟩ r hr
+      rcases hr with ⟨pj, hpj, rfl⟩ | ⟨jc, hjc, rfl⟩
+      · simpa [refHolds] using h1 pj hpj
+      · simpa [refHolds] using h2 jc hjc
+
+/-- MAIN (Association().Find / Count, every relation kind, all key values): when the parsed references are, as a set, the
+    references of the relation `s` (checked on every run against gorm's parser), the rows accepted by the conditions of
+    `ToQueryConditions` are exactly the rows of the reference join "foreign key = the parent's REFERENCED key":
+    (1) none foreign; (2) none missing (outside finding F6). -/
+theorem C11_assoc_find_exact (s : RelSpec) (ct : List Char) (refs : List JoinRef) (hset : ∀ r, r ∈ refs ↔ r ∈ s.refs)
+    (hw : ∀ cv ∈ s.consts, cv.2 ≠ []) (parents : List PRow) (env : QEnv) :
+    (assocSelects ct s.via refs parents env = true → ∃ p ∈ parents, s.holds ct p env = true) ∧
+    (PAddrFun parents → ∀ p ∈ parents,
+      allZero (p.idRow (toQueryConditions ct s.via refs).valFields).key = false →
+      (∀ p' ∈ parents, (p'.idRow (toQueryConditions ct s.via refs).valFields).keyStr
+              = (p.idRow (toQueryConditions ct s.via refs).valFields).keyStr →
+            (p'.idRow (toQueryConditions ct s.via refs).valFields).vals = (p.idRow (toQueryConditions ct s.via refs).valFields).vals) →
+      s.holds ct p env = true → assocSelects ct s.via refs parents env = true) := by
+  constructor
+  · intro h
+    obtain ⟨p, hp, _, hr⟩ := C11_query_conditions_none_foreign ct s.via refs parents env h
+    exact ⟨p, hp, (C11_spec_refs s ct p env hw).mp (fun r hr' => hr r ((hset r).mpr hr'))⟩
+  · intro hf p hp hz hinj hh
+    apply C11_query_conditions_none_missing ct s.via refs parents env hf p hp hz hinj
+    intro r hr
+    exact (C11_spec_refs s ct p env hw).mpr hh r ((hset r).mp hr)
+
+/-- the column choice, spelled out: a belongs-to declared with `references:Code` filters the target's `code` column by
+    the record's foreign key — the target's primary key `id` plays no role; Preload's child query uses the same pairs -/
+theorem C11_belongs_to_referenced_column :
+    let refs : List JoinRef := [⟨false, "code".toList, "country_code".toList, []⟩]
+    (toQueryConditions "countries".toList none refs).pairs = [("code".toList, "country_code".toList)] ∧
+    (toQueryConditions "countries".toList none refs).inTable = "countries".toList ∧
+    (toQueryConditions "countries".toList none refs).atoms = [] ∧
+    preloadDirectPairs refs = (toQueryConditions "countries".toList none refs).pairs := by
+  decide
+
+/-- a key mix-up would be visible: the city with country_code "2" selects the country whose CODE is "2" (id 1), not the
+    country whose ID is 2 (non-vacuity of the two theorems above, on values that look like another row's primary key) -/
+theorem C11_referenced_key_example :
+    let refs : List JoinRef := [⟨false, "code".toList, "country_code".toList, []⟩]
+    let city : PRow := ⟨0, fun c => if c = "country_code".toList then ⟨.str "2".toList, false⟩ else ⟨.nil, true⟩⟩
+    let alpha : QRow := fun c => if c = "id".toList then .uint 1 else if c = "code".toList then .str "2".toList else .nil
+    let beta : QRow := fun c => if c = "id".toList then .uint 2 else if c = "code".toList then .str "1".toList else .nil
+    assocSelects "countries".toList none refs [city] (fun _ => alpha) = true ∧
+    assocSelects "countries".toList none refs [city] (fun _ => beta) = false := by
+  decide
+
+/-- many2many through non-primary columns: the join row is tied to the record by the record's referenced column and to
+    the target by the target's referenced column -/
+theorem C11_many2many_hop_example :
+    let s : RelSpec := ⟨false, [], [], some "owner_tags".toList, [("ref".toList, "owner_ref".toList)], [("tag_code".toList, "code".toList)]⟩
+    (toQueryConditions "tags".toList s.via s.refs).pairs = [("owner_ref".toList, "ref".toList)] ∧
+    (toQueryConditions "tags".toList s.via s.refs).inTable = "owner_tags".toList ∧
+    (toQueryConditions "tags".toList s.via s.refs).atoms
+      = [.colEq "owner_tags".toList "tag_code".toList "tags".toList "code".toList] ∧
+    preloadJoinPairs s.refs = [("owner_ref".toList, "ref".toList)] ∧
+    preloadHopPairs s.refs = [("code".toList, "tag_code".toList)] := by
+  decide
+
 end Gorm
